@@ -93,6 +93,11 @@ MUTANTS = {
     "c05-crop-floor": ("pulsarbat/transforms/dedispersion.py", "start = math.ceil(-min(0, delay_top, delay_bot))", "start = math.floor(-min(0, delay_top, delay_bot))", ["C05"]),
     "c05-stop-off1": ("pulsarbat/transforms/dedispersion.py", "stop = x.shape[0] - math.ceil(+max(0, delay_top, delay_bot))", "stop = x.shape[0] - math.ceil(+max(0, delay_top, delay_bot)) + (1 if delay_top > 3 else 0)", ["C05"]),
     "c05-chirp-ignored": ("pulsarbat/transforms/dedispersion.py", "    if chirp is None:\n        chirp = DM.chirp_from_signal(z, ref_freq=ref_freq)", "    if chirp is None or True:\n        chirp = DM.chirp_from_signal(z, ref_freq=z.center_freq)", ["C05"]),
+    "c13-swap-lr": ("pulsarbat/core.py", "            L = X - 1j * Y\n            R = X + 1j * Y\n", "            L = X + 1j * Y\n            R = X - 1j * Y\n", ["C13"]),
+    "c13-v-sign": ("pulsarbat/core.py", "            V = 2 * XY.imag\n", "            V = -2 * XY.imag\n", ["C13"]),
+    "c13-no-sqrt2": ("pulsarbat/core.py", "            z = np.stack([X, Y], axis=axis) / np.sqrt(2)", "            z = np.stack([X, Y], axis=axis) / 2", ["C13"]),
+    "c13-circ-uq": ("pulsarbat/core.py", "            Q = 2 * LR.real\n            U = 2 * LR.imag\n", "            Q = 2 * LR.imag\n            U = 2 * LR.real\n", ["C13"]),
+    "c13-poltype-kept": ("pulsarbat/core.py", '        return type(self).like(self, z, pol_type="circular")', "        return type(self).like(self, z)", ["C13"]),
 }
 
 # behaviour-preserving edits: no check may fire
